@@ -465,6 +465,10 @@ func vfC15SchedScenarios(thorough bool) []*vfQScenario {
 		mk("full-nb-vs-pop", 1, l("a"), l("nbpush:b", "nbpush:c"), l("pop1")),
 		mk("producer-consumer", 1, nil, l("push:a", "push:b"), l("pop1", "pop1")),
 		mk("pop2-cancel-both", 2, nil, l("pop1"), l("pop2"), l("cancel1", "cancel2")),
+		// capacity 2 (every pop of a 1-slot queue sees it full): two parked pushers, pops back to back
+		mk("two-blocked-pushers-cap2", 2, l("a", "b"), l("push:c"), l("push:d"), l("pop1", "pop1")),
+		mk("blocked-pushers-urgent-cap2", 2, l("a", "b"), l("upush:c"), l("push:d"), l("pop1"), l("pop2")),
+		mk("two-blocked-poppers-cap2", 2, nil, l("pop1"), l("pop2"), l("nbpush:a", "nbpush:b")),
 	}
 	if thorough {
 		out = append(out,
